@@ -5,6 +5,7 @@ extern crate tsrun;
 
 mod gcmiri;
 mod gcreplay;
+mod orders;
 mod gctrace;
 mod rng;
 mod pathnorm;
@@ -19,6 +20,7 @@ fn main() {
         "pathnorm" => pathnorm::main(&rest),
         "gcreplay" => gcreplay::main(&rest),
         "gctrace" => gctrace::main(&rest),
+        "orders" => orders::main(&rest),
         "gcmiri" => gcmiri::main(&rest),
         _ => {
             eprintln!("usage: vrunner <pathnorm|...>");
